@@ -185,7 +185,7 @@ func (c *comp) compiled(tag, name string, t *ast.Task, err error) {
 var devnull *os.File
 
 // load performs one complete load of a tree and returns kind -> canonical text.
-func load(t *p09.Tree) map[string]string {
+func load(t *p09.Tree, dry bool) map[string]string {
 	c := newComp()
 	var so, se bytes.Buffer
 	e := task.NewExecutor()
@@ -238,6 +238,9 @@ func load(t *p09.Tree) map[string]string {
 			}
 		}
 		for _, name := range t.Dry {
+			if !dry {
+				break
+			}
 			so.Reset()
 			se.Reset()
 			rerr := e.Run(context.Background(), &task.Call{Task: name})
@@ -250,6 +253,9 @@ func load(t *p09.Tree) map[string]string {
 	}
 	out := map[string]string{}
 	for k, b := range c.b {
+		if k == "dry-run" && !dry {
+			continue // not observed in this load
+		}
 		out[k] = b.String()
 	}
 	return out
@@ -315,7 +321,7 @@ func loadOrdered(t *p09.Tree, perm []string) (comps map[string]string, linked []
 	cur.Store(st)
 	defer cur.Store(nil)
 	done := make(chan map[string]string, 1)
-	go func() { done <- load(t) }()
+	go func() { done <- load(t, true) }()
 	released := map[string]bool{}
 	releaseAll := func() {
 		for ns, ch := range st.release {
@@ -401,7 +407,7 @@ func main() {
 		os.Chdir(t.Dir)
 		res := &p09.TreeResult{Tree: t.Index, GMP: job.GMP, Free: map[string]*p09.Obs{}, Hook: map[string]*p09.Obs{}}
 		for i := 0; i < job.Loads; i++ {
-			comps := load(t)
+			comps := load(t, job.DryEvery <= 1 || i%job.DryEvery == 0)
 			record(res.Free, comps)
 			res.Loads++
 			if i == 0 {
